@@ -16,6 +16,9 @@ def main(tier, seed):
     chk = Check("C14", tier, seed, technique="relational DSE in ONE module namespace: repeated / interleaved (another problem between) / nested (another complete run inside an objective call at a symbolic index) / read-only inputs / two restarts from one checkpoint object / logging on-off, real main.py+base.py display code with functional stubs; z3 decides equality of terms")
     jobs = [(T, dict(K=1, ls_mode="unit", mode="repeat")), (T, dict(K=1, ls_mode="unit", mode="nested")), (T, dict(K=2, ls_mode="unit", mode="inputs")),
             (T, dict(K=2, k=1, ls_mode="unit", mode="checkpoint", readonly=1)), (T, dict(K=2, k=1, ls_mode="unit", mode="checkpoint", scaler=1, readonly=1))]
+    # the real kernels of two problems interleaved in one namespace (module-level state would show here)
+    for pat in (("ff", "ff"), ("ff", "fi")):
+        jobs.append(("harness.orch_rel:c14_kernels", dict(n=2, pattern=pat)))
     for ipr in (0, 1, 99, 101):
         jobs.append((T, dict(K=2, ls_mode="unit", mode="logging", iprint=ipr)))
     if tier != "quick":
